@@ -53,8 +53,16 @@ func VerifHarness_C11_restart() {
 	tid := *t.TxHash()
 
 	// before the restart
-	trusted := verifrt.Choose("t.trusted", 2) == 1
-	perr := k.node.processUnconfirmedTx(ctx, handlers.TxData{Msg: t, Trusted: trusted, ConfirmedHeight: -1})
+	// the body comes from an untrusted peer, from the trusted peer, or from an untrusted peer after
+	// the trusted peer announced the txid (its inventory handler records the request as trusted):
+	// in the last two cases the trusted peer vouches for it
+	source := verifrt.Choose("t.source", 3)
+	trusted := source != 0
+	if source == 2 {
+		k.node.memPool.AddRequest(ctx, tid, true)
+		verifrt.Reach("C11.before.announced-by-trusted-body-from-untrusted")
+	}
+	perr := k.node.processUnconfirmedTx(ctx, handlers.TxData{Msg: t, Trusted: source == 1, ConfirmedHeight: -1})
 	verifrt.Assert(perr == nil, "C11.before.processed")
 	verifrt.Assert(len(k.rec.of("tx", tid)) == 1, "C11.before.delivered")
 	sent := k.rec.of("tx", tid)[0].tx
@@ -129,11 +137,43 @@ func VerifHarness_C11_restart() {
 	verifrt.Assert(tracked == !confirmedBefore, "C11.restart.unconfirmed-set-is-exactly-what-it-was")
 
 	// after the restart
-	after := verifrt.Choose("after", 3)
+	after := verifrt.Choose("after", 5)
 	if confirmedBefore {
-		verifrt.Assume(after != 1)
+		verifrt.Assume(after != 1 && after != 3 && after != 4)
+	}
+	if conflictBefore {
+		verifrt.Assume(after != 3 && after != 4)
 	}
 	switch after {
+	case 3: // a double spend of t arrives unconfirmed: t is still tracked for double spends
+		perr = k2.node.processUnconfirmedTx(ctx, handlers.TxData{Msg: rival, Trusted: true, ConfirmedHeight: -1})
+		verifrt.Assert(perr == nil, "C11.after.processed")
+		rivalNew := k2.rec.of("tx", *rival.TxHash())
+		verifrt.Sig("after", "rival")
+		verifrt.Assert(len(rivalNew) == 1 && rivalNew[0].state.UnSafe && !rivalNew[0].state.Safe, "C11.after.double-spend-of-a-tracked-tx-is-reported-unsafe")
+		flagged := false
+		for _, e := range k2.rec.of("update", tid) {
+			if e.state.UnSafe && !e.state.Safe {
+				flagged = true
+			}
+		}
+		verifrt.Sig("after", "double-spent")
+		verifrt.Assert(flagged, "C11.after.tracked-tx-is-reported-unsafe-when-double-spent")
+		verifrt.Reach("C11.after.double-spent")
+	case 4: // a double spend of t confirms: t is cancelled
+		blk := vkBlock(*k2.node.blocks.LastHash(), height+1, []*wire.MsgTx{rival})
+		berr := k2.node.ProcessBlock(ctx, blk)
+		verifrt.Sig("after", "block")
+		verifrt.Assert(berr == nil, "C11.after.block-processed")
+		cancelled := false
+		for _, e := range k2.rec.of("update", tid) {
+			if e.state.Cancelled && e.state.UnSafe && !e.state.Safe {
+				cancelled = true
+			}
+		}
+		verifrt.Sig("after", "cancelled")
+		verifrt.Assert(cancelled, "C11.after.tracked-tx-is-cancelled-when-a-double-spend-confirms")
+		verifrt.Reach("C11.after.cancelled")
 	case 0: // re-announcement by a peer
 		perr = k2.node.processUnconfirmedTx(ctx, handlers.TxData{Msg: t, Trusted: verifrt.Choose("after.trusted", 2) == 1, ConfirmedHeight: -1})
 		verifrt.Assert(perr == nil, "C11.after.processed")
